@@ -2,13 +2,16 @@
    ExtrOcamlBasic only (bool, option, unit, list, prod, sumbool, ... as OCaml's own);
    N, Z, positive, nat and byte stay Coq datatypes.  No Extract Constant. *)
 From Coq Require Import extraction.Extraction extraction.ExtrOcamlBasic.
-From IKE Require Import Lib.Base Prim.Hmac Spec.PrfPlus Impl.EapAkaPrf Impl.Msg Impl.Eap Impl.Payloads Impl.Message.
+From IKE Require Import Lib.Base Prim.Hmac Spec.PrfPlus Impl.EapAkaPrf Impl.Msg Impl.Eap Impl.Payloads Impl.Message Prim.Cbc Impl.Security Impl.Ike.
 Extraction Language OCaml.
 Extraction "model.ml"
   b2n n2b be_val nat_of N.of_nat
-  hmac stream prf_plus slice
+  hmac stream prf_plus slice hlen
   eap_aka_prime_prf
   aka_set_attr aka_get aka_sort aka_marshal aka_unmarshal expanded_unmarshal simple_unmarshal
   eapdata_marshal eap_marshal eap_unmarshal
   payload_marshal payload_unmarshal sa_unmarshal ts_unmarshal
-  container_encode decode_payloads header_marshal parse_header encode decode ptype.
+  container_encode decode_payloads header_marshal parse_header encode decode ptype
+  draw prf_plus_obj pkcs7_padding aes_encrypt aes_decrypt new_crypto cbc_enc cbc_dec
+  generate_key_for_ikesa sa_of_keys generate_key_for_childsa prf_once ho_new ho_sum ho_write ho_reset
+  calculate_integrity encrypt_msg encode_encrypt decrypt_msg decode_decrypt.
